@@ -41,7 +41,7 @@ def scrub(p, live):
 def main(tier, seed):
     res = Result(PID, tier, seed)
     try:
-        translate.run_all()
+        translate.run_all(PID)
     except translate.AnchorLost as e:
         res.violation("translator lost its anchor: %s" % e, {"theorem_or_correspondence": "tools/translate.py gen_wsletters"}, found_input=False)
     pr = coq_prove(PID)
@@ -73,7 +73,9 @@ def main(tier, seed):
     hist = {"with_deleted": 0, "with_incomplete_values": 0, "states": {"C": 0, "I": 0, "D": 0, "N": 0}}
     for k in range(n):
         r = rng(seed, "c16/%d" % k)
-        g = popgen.Gen(r, fancy=False)
+        # every fourth population carries comments inside its records (kept per instance and written back
+        # between the state letter and the id)
+        g = popgen.Gen(r, fancy=(k % 4 == 3))
         insts = g.population(r.choice([3, 6, 10]))
         partial = set()
         # partially filled populations: unset a required attribute of some simple instances
